@@ -127,7 +127,7 @@ def handler(c):
             u = mk_universe(c['universe'])
             return [list(u.get_assets(ts(t))) for t in c['times']]
         if op == 'optimiser':
-            o = FixedWeightPortfolioOptimiser() if c['kind'] == 'fixed' else EqualWeightPortfolioOptimiser(scale=c['scale'])
+            o = FixedWeightPortfolioOptimiser() if c['kind'] == 'fixed' else (EqualWeightPortfolioOptimiser(c['scale']) if len(c['weights']) % 2 == 0 else EqualWeightPortfolioOptimiser(scale=c['scale']))
             r = o(ts(0), dict((a, w) for a, w in c['weights']))
             return ['ok', [[a, num(w)] for a, w in r.items()]]
         if op == 'pcm':
@@ -141,7 +141,7 @@ def handler(c):
                 alpha = SingleSignalAlphaModel(mk_universe(['dynamic', c['alpha_dynamic']]), signal=c['signal'], **kw_a)
             else:
                 alpha = FixedSignalsAlphaModel(dict((a, w) for a, w in c['alpha']))
-            opt = EqualWeightPortfolioOptimiser(scale=c['opt'][1]) if c.get('opt') else FixedWeightPortfolioOptimiser()
+            opt = (EqualWeightPortfolioOptimiser(c['opt'][1]) if c.get('t', 0) % 3 == 0 else EqualWeightPortfolioOptimiser(scale=c['opt'][1])) if c.get('opt') else FixedWeightPortfolioOptimiser()
             pcm = PortfolioConstructionModel(broker, 'p', uni, sizer, opt, alpha_model=alpha)
             stats = {'target_allocations': []}
             orders = pcm(ts(c.get('t', 0)), stats=stats)
@@ -218,6 +218,9 @@ def rebalance_seq(c):
                                                           FixedSignalsAlphaModel(dict((a, w) for a, w in r.get('alpha_in', r['alpha'])))))
         # a risk model that returns the weights it is given must change nothing
         pcm.risk_model = (lambda dt_, w_: w_) if r.get('risk_identity') else None
+        if r.get('risk_drop') is not None:
+            # a risk model that removes one asset from the weights (an exclusion list): it is then an asset the alpha is silent on
+            pcm.risk_model = (lambda drop_: (lambda dt_, w_: dict((k_, v_) for k_, v_ in w_.items() if k_ != drop_)))(r['risk_drop'])
         stats = {'target_allocations': []}
         try:
             orders = pcm(t, stats=stats)
